@@ -58,7 +58,7 @@ def gen_c15(rng, oracle, index, tier="quick"):
         if rng.random() < 0.7:
             g.emit({"op": "drain", "it": it})
             g.events.append(("drain", "it", ()))
-    meta = {"profile": p, "fired": g.fired, "events": g.events, "skipped": g.skipped}
+    meta = {"profile": p, "fired": g.fired, "events": g.events, "skipped": g.skipped, "hits": g.hits}
     return g.ops, g.refs, meta
 
 
